@@ -229,7 +229,7 @@ impl Property for C13 {
         }
     }
     fn rule(&self) -> &'static str {
-        "each case: an instance with 1-3 integer/binary variables (one in 25 without any variable and a constant inequality) with integer boxes inside [-4,4] (ids small or sparse), an inequality f(x)<=0 of degree <= 2 whose coefficients are integers or p/q from one denominator family (lcm <= 42), a second untouched constraint and in half the cases 1-4 more with ids on both sides of the target, the list stored ascending, descending or shuffled, one case in eight after a relax->restore history; even cases call convert_inequality_to_equality_with_integer_slack(id, max) (max huge, or 0..3 in one of six cases), odd cases add_integer_slack_to_inequality(id, ub in 1..6); one case in four is a rejection scenario (unknown constraint id, an equality constraint, a continuous or semi-continuous variable used, an inequality that is unbounded below because a variable has no upper end - also with the limit u64::MAX); one case in twelve has a semi-integer variable (domain {0} and the integers of its bound): it may be refused, and if it is accepted the feasible set over that domain must be preserved. Every lattice point of the box is enumerated: f(x)<=0 (SDK rule: < 1e-6) must hold iff some integer slack value in the introduced bound satisfies the new constraint (exact rational evaluation of the new constraint at the lattice point as a polynomial in the slack alone: for degree <= 1 only the slack values around its root and the ends of the slack bound can qualify, otherwise every slack value is tried; the new variable is recognised by its fresh id, nothing else about its position or the shape of the new function is assumed). Relaxed => every point satisfies it; InfeasibleDetected => no point does; rejections leave the instance equal. Non-trivial = a non-constant inequality; distinct = fingerprint of (instance, method, argument)."
+        "each case: an instance with 1-3 integer/binary variables (one in 25 without any variable and a constant inequality) with integer boxes inside [-4,4] (ids small or sparse), an inequality f(x)<=0 of degree <= 2 whose coefficients are integers or p/q from one denominator family (lcm <= 42), a second untouched constraint and in half the cases 1-4 more with ids on both sides of the target, the list stored ascending, descending or shuffled, one case in eight after a relax->restore history; even cases call convert_inequality_to_equality_with_integer_slack(id, max) (max huge, or 0..6 in one of six cases; for a linear f the slack range the conversion needs is known independently, so a refusal must be justified by it), odd cases add_integer_slack_to_inequality(id, ub in 1..6); one case in four is a rejection scenario (unknown constraint id, an equality constraint, a continuous or semi-continuous variable used, an inequality that is unbounded below because a variable has no upper end - also with the limit u64::MAX); one case in twelve has a semi-integer variable (domain {0} and the integers of its bound): it may be refused, and if it is accepted the feasible set over that domain must be preserved. Every lattice point of the box is enumerated: f(x)<=0 (SDK rule: < 1e-6) must hold iff some integer slack value in the introduced bound satisfies the new constraint (exact rational evaluation of the new constraint at the lattice point as a polynomial in the slack alone: for degree <= 1 only the slack values around its root and the ends of the slack bound can qualify, otherwise every slack value is tried; the new variable is recognised by its fresh id, nothing else about its position or the shape of the new function is assumed). Relaxed => every point satisfies it; InfeasibleDetected => no point does; rejections leave the instance equal. Non-trivial = a non-constant inequality; distinct = fingerprint of (instance, method, argument)."
     }
     fn assumptions(&self) -> Vec<&'static str> {
         vec![
@@ -259,7 +259,7 @@ impl Property for C13 {
         let small_max = convert && rng.chance(1, 6);
         let arg: u64 = if convert {
             if small_max {
-                rng.below(4)
+                rng.below(7)
             } else {
                 1 << 40
             }
@@ -338,6 +338,37 @@ impl Property for C13 {
                 // slack range exceeds it; the estimate is the SDK's own, so such refusals are only required
                 // to leave the instance unchanged (the wording of the error is not relied upon)
                 let _ = e;
+                // For a LINEAR f over the box the interval bound of a*f is exact (attained at a lattice corner), so
+                // the slack range the conversion needs is known independently: R = -a * min f with a = the content
+                // factor (lcm of the denominators / gcd of the numerators of all coefficients). A refusal is then
+                // justified exactly when R exceeds the caller's limit.
+                if convert && case.semi.is_none() && fpoly.degree() == 1 && !values.is_empty() {
+                    let mut den_lcm = num::BigInt::from(1);
+                    let mut num_gcd = num::BigInt::from(0);
+                    for c in fpoly.terms.values() {
+                        den_lcm = num::integer::lcm(den_lcm.clone(), c.denom().clone());
+                        num_gcd = num::integer::gcd(num_gcd.clone(), c.numer().clone());
+                    }
+                    if !num_gcd.is_zero() {
+                        // a*c is an integer for every c  <=>  a is a multiple of lcm(den)/gcd(num) ... the least such a
+                        let mut scaled_gcd = num::BigInt::from(0);
+                        for c in fpoly.terms.values() {
+                            scaled_gcd = num::integer::gcd(scaled_gcd.clone(), (c * Q::from_integer(den_lcm.clone())).to_integer());
+                        }
+                        let a = Q::new(den_lcm.clone(), scaled_gcd);
+                        let min_f = values.iter().map(|(_, v)| v.clone()).min().unwrap();
+                        let needed = -(a * min_f);
+                        if needed <= Q::from_integer(num::BigInt::from(arg)) {
+                            mon.violation(
+                                "C13.rejected-although-slack-range-within-limit:convert",
+                                format!("the conversion was refused although the slack range it needs, -a*min f = {needed}, does not exceed the limit {arg}\n{}", ctx(&after, &out)),
+                            );
+                        } else {
+                            mon.facet("convert/range-above-limit-rejected:confirmed-for-linear-f");
+                        }
+                        return;
+                    }
+                }
                 if case.semi.is_some() {
                     // a semi-integer variable (domain {0} u [l,u]) may be refused like a continuous one; if it
                     // is accepted, the feasible set over that domain must be preserved (checked below)
